@@ -85,7 +85,14 @@ func (r *Report) Digest(id string, parts ...[]byte) {
 	r.Digests[id] = hex.EncodeToString(h.Sum(nil))[:24]
 	r.mu.Unlock()
 }
+// classer: a case that can tell whether it falls under a known finding that is independent of
+// the oracle (e.g. a defect of the Go standard library that fastgo delegates to).
+type classer interface{ knownClass() string }
+
 func (r *Report) Violate(oracle, class, detail string, c interface{}) {
+	if kc, ok := c.(classer); ok && class == "" {
+		class = kc.knownClass()
+	}
 	raw, _ := json.Marshal(c)
 	r.mu.Lock()
 	defer r.mu.Unlock()
